@@ -261,12 +261,19 @@ func (e *Exec) do(op *Op) (err error, skipped string) {
 		if op.OpTag != "" || op.OpSize != 0 {
 			opts = append(opts, hdf5.WithOpaqueTag(op.OpTag, op.OpSize))
 		}
+		// shape arguments are passed in slices of the caller that are reused (overwritten) as
+		// soon as the call has returned
+		dimsArg := append([]uint64(nil), op.Dims...)
+		var chunkArg, maxArg []uint64
 		if op.Chunk != nil {
-			opts = append(opts, hdf5.WithChunkDims(op.Chunk))
+			chunkArg = append([]uint64{}, op.Chunk...)
+			opts = append(opts, hdf5.WithChunkDims(chunkArg))
 		}
 		if op.MaxDims != nil {
-			opts = append(opts, hdf5.WithMaxDims(op.MaxDims))
+			maxArg = append([]uint64{}, op.MaxDims...)
+			opts = append(opts, hdf5.WithMaxDims(maxArg))
 		}
+		defer func() { Poison(dimsArg); Poison(chunkArg); Poison(maxArg) }()
 		if op.Shuffle {
 			opts = append(opts, hdf5.WithShuffle())
 		}
@@ -276,7 +283,7 @@ func (e *Exec) do(op *Op) (err error, skipped string) {
 		if op.Fletcher {
 			opts = append(opts, hdf5.WithFletcher32())
 		}
-		ds, cerr := fw.CreateDataset(op.Path, dt, op.Dims, opts...)
+		ds, cerr := fw.CreateDataset(op.Path, dt, dimsArg, opts...)
 		if cerr != nil {
 			return cerr, ""
 		}
@@ -326,7 +333,10 @@ func (e *Exec) do(op *Op) (err error, skipped string) {
 		if ds == nil {
 			return nil, "no dataset handle"
 		}
-		return ds.Resize(op.Dims), ""
+		nd := append([]uint64(nil), op.Dims...)
+		rerr := ds.Resize(nd)
+		Poison(nd)
+		return rerr, ""
 	case "attr":
 		if ds := e.DS[op.Path]; ds != nil {
 			g := op.Data.Go()
@@ -544,7 +554,7 @@ func (e *Exec) Step(i int, op *Op) OpRes {
 	}
 	var err error
 	var skipped string
-	DirtyPools(i%16 == 0)
+	DirtyPools(i%64 == 0)
 	site, msg, p := ev.Guard(func() { err, skipped = e.do(op) })
 	switch {
 	case p:
